@@ -146,9 +146,17 @@ func (c12) Gen(r *sim.Rand, c *sim.Case, tier string) {
 				sz = "Custom"
 				w, h = customDims()
 			}
-			ops = append(ops, sim.Op{K: "pg.set", S: []sim.Str{sim.Str(sz), sim.Str(or), sim.Str(r.Pick("lines", "default", "snapToChars"))},
+			pset := sim.Op{K: "pg.set", S: []sim.Str{sim.Str(sz), sim.Str(or), sim.Str(r.Pick("lines", "default", "snapToChars"))},
 				F: []float64{w, h, float64(r.Range(0, 50)), float64(r.Range(0, 50)), float64(r.Range(0, 50)), float64(r.Range(0, 50)), float64(r.Range(0, 30)), float64(r.Range(0, 30)), float64(r.Range(0, 20))},
-				I: []int{r.Range(0, 600), r.Range(0, 100), 0}})
+				I: []int{r.Range(0, 600), r.Range(0, 100), 0}}
+			negative := r.Chance(0.08)
+			if negative { // one negative margin, distance or gutter in an otherwise complete request
+				pset.F[r.Range(2, 8)] = -float64(r.Range(1, 30))
+			}
+			ops = append(ops, pset)
+			if negative {
+				continue // (whether the request took effect is not known to the generator: its own book-keeping stays as it was)
+			}
 			if sz == "Custom" {
 				if w >= 12.7 && w <= 558.8 && h >= 12.7 && h <= 558.8 {
 					custom, landscape = true, or == "landscape"
@@ -392,7 +400,23 @@ func (c12) Exec(c *sim.Case, env *Env) []sim.Violation {
 		}
 		if c12ops[op.K] {
 			next, reject := st.apply(op)
+			unspecified := false
+			if op.K == "pg.set" && op.Int(2) != 1 && !reject {
+				for i := 2; i <= 8; i++ {
+					unspecified = unspecified || op.Flt(i) < 0
+				}
+			}
 			switch {
+			case unspecified:
+				// a negative margin, distance or gutter handed to SetPageSettings directly: the convenience setters refuse such values,
+				// SetPageSettings itself does not say. Either answer is taken - but a refusal must leave everything as it was
+				// (the read-back below compares with the unchanged model), and an acceptance must apply the whole request
+				if o.Err == nil {
+					st = next
+					w.Stats.Probe("page_calls_accepted")
+				} else {
+					w.Stats.Probe("page_calls_rejected")
+				}
 			case reject && o.Err == nil:
 				w.Fail("invalid-accepted", op.K, fmt.Sprintf("%s %v %v %v is not a valid request but was accepted", op.K, op.S, op.F, op.I))
 				return
